@@ -95,7 +95,7 @@ func c18Run(c *Ctx, st *rdState, nOps int, stream string) {
 	}
 	panicked := false
 	for o := 0; o < nOps && !panicked; o++ {
-		c.watchdog(5*time.Second, "reader-hang", func() interface{} {
+		c.watchdog(60*time.Second, "reader-hang", func() interface{} {
 			return map[string]interface{}{"source": q(st.src), "script": strings.Join(script, " "), "block": st.isBlock()}
 		}, func() {
 			defer func() {
